@@ -1,4 +1,5 @@
 """CrossHair plugin: keep `bistr` symbolic instead of realizing at str-subclass construction."""
+import crosshair.core_and_libs  # noqa: F401  (its import resets all registrations: must happen BEFORE ours)
 from crosshair import register_patch, NoTracing, ResumedTracing
 from crosshair.libimpl.builtinslib import LazyIntSymbolicStr, AnySymbolicStr
 from fst.astutil import bistr
